@@ -638,6 +638,72 @@ theorem preD_succ {N : Nat} (heven : N % 2 = 0) (L k : Nat) :
       · rw [if_pos hr, if_pos (by rw [he]; rw [hel, hsl] at hr; omega)]
       · rw [if_neg hr, if_neg (by rw [he]; rw [hel, hsl] at hr; omega)]
 
+/-- an even bound `N` outside the subtree: raising it by one changes nothing -/
+theorem postD_succ_out {N : Nat} (L k : Nat) (hout : ¬ (startOf k L ≤ N ∧ N < endOf k L)) :
+    postD (N + 1) L k = postD N L k := by
+  rw [postD_filter (Nat.le_succ N) L k, eq_comm, List.filter_eq_self]
+  intro x hx
+  obtain ⟨k', L', h1, _, h3, h4, h5, h6⟩ := mem_postD' _ _ _ _ hx
+  have h7 := nodeOf_start k' L'
+  have h8 := endOf_start k' L'
+  have hp := two_pow_pos' L'
+  rw [Nat.pow_succ] at h8
+  simp only [decide_eq_true_eq]
+  omega
+
+/-- an even bound `N` inside the subtree: raising it by one inserts the leaf `N` directly before
+the nodes whose interval reaches beyond `N` (its ancestors) -/
+theorem postD_succ_in {N : Nat} (heven : N % 2 = 0) (L k : Nat)
+    (hs : startOf k L ≤ N) (he : N < endOf k L) :
+    ∃ A B, postD (N + 1) L k = A ++ N :: B ∧ postD N L k = A ++ B ∧
+      (∀ a ∈ A, ∃ k' L', a = nodeOf k' L' ∧ endOf k' L' ≤ N) ∧
+      (∀ b ∈ B, ∃ k' L', b = nodeOf k' L' ∧ N < endOf k' L') := by
+  induction L generalizing k with
+  | zero =>
+    rw [endOf_start, startOf_zero] at he
+    rw [startOf_zero] at hs
+    have hN : N = 2 * k := by simp only [Nat.zero_add, Nat.pow_one] at he; omega
+    refine ⟨[], [], ?_, ?_, by simp, by simp⟩
+    · simp [postD, nodeOf_zero, hN]
+    · simp [postD, nodeOf_zero, hN]
+  | succ L ih =>
+    have hp := two_pow_pos' (L + 1)
+    have e2 : (2 : Nat) ^ (L + 1 + 1) = 2 * 2 ^ (L + 1) := by rw [Nat.pow_succ]; omega
+    have hxo := nodeOf_succ_odd k L
+    have hx := nodeOf_start k (L + 1)
+    have hsl : startOf (2 * k) L = startOf k (L + 1) := Offsets.startOf_left k L
+    have hsr := Offsets.startOf_right k L
+    have hel : endOf (2 * k) L = startOf k (L + 1) + 2 ^ (L + 1) := by rw [endOf_start, hsl]
+    have her : endOf (2 * k + 1) L = startOf k (L + 1) + 2 * 2 ^ (L + 1) := by
+      rw [endOf_start, hsr]; omega
+    have hee : endOf k (L + 1) = startOf k (L + 1) + 2 * 2 ^ (L + 1) := by rw [endOf_start, e2]
+    by_cases h1 : nodeOf k (L + 1) < N
+    · have h2 : nodeOf k (L + 1) < N + 1 := by omega
+      obtain ⟨A, B, hA, hB, hAs, hBs⟩ := ih (2 * k + 1) (by omega) (by omega)
+      refine ⟨postD N L (2 * k) ++ A, B ++ [nodeOf k (L + 1)], ?_, ?_, ?_, ?_⟩
+      · simp only [postD, if_pos h2]
+        rw [postD_succ_out L (2 * k) (by omega), hA]
+        simp
+      · simp only [postD, if_pos h1]
+        rw [hB]
+        simp
+      · intro a ha
+        rw [List.mem_append] at ha
+        rcases ha with ha | ha
+        · obtain ⟨k', L', h3, _, _, _, _, h6⟩ := mem_postD' _ _ _ _ ha
+          exact ⟨k', L', h3, by omega⟩
+        · exact hAs a ha
+      · intro b hb
+        rw [List.mem_append, List.mem_singleton] at hb
+        rcases hb with hb | hb
+        · exact hBs b hb
+        · exact ⟨k, L + 1, hb, by omega⟩
+    · have h2 : ¬ (nodeOf k (L + 1) < N + 1) := by omega
+      obtain ⟨A, B, hA, hB, hAs, hBs⟩ := ih (2 * k) (by omega) (by omega)
+      refine ⟨A, B, ?_, ?_, hAs, hBs⟩
+      · simp only [postD, if_neg h2]; exact hA
+      · simp only [postD, if_neg h1]; exact hB
+
 /-! ### the persisted lists in dense form -/
 
 theorem persistedPre_eq_preD (size bs h : Nat) (hs : size ≤ 2 ^ 63)
@@ -757,6 +823,109 @@ theorem postIter_filter (size bs : Nat) (hs : size ≤ 2 ^ 63) (hbs : bs ≤ 10)
   · rw [if_neg hb]
     have hlt : x < Tree.blocks ⟨size, bs⟩ - 1 := by omega
     simp [hlt]
+
+/-- exact position of the half leaf in `BaoTree::post_order_nodes_iter` (odd number of blocks):
+it comes after the stable persisted nodes and before the unstable ones (its ancestors) -/
+theorem postIter_exact (size bs : Nat) (hs : size ≤ 2 ^ 63) (hbs : bs ≤ 10)
+    (hb : Tree.blocks ⟨size, bs⟩ % 2 = 1) :
+    ∃ A B, Tree.postOrderNodesIter ⟨size, bs⟩
+        = A ++ Node.subBs (Tree.blocks ⟨size, bs⟩ - 1) bs :: B ∧
+      persistedPost size bs = A ++ B ∧
+      (∀ a ∈ A, isStable ⟨size, bs⟩ a = true) ∧ (∀ b ∈ B, isStable ⟨size, bs⟩ b = false) := by
+  obtain ⟨hh, e, hlt, hF⟩ := rootLevel_spec size bs hs
+  obtain ⟨hNF, hFN, hodd⟩ := shifted_props size bs
+  obtain ⟨hfb1, hfb2⟩ := full_blocks size bs
+  have hBp := blocks_pos size bs
+  have hmap : (postD (Tree.shifted ⟨size, bs⟩).2 (rootLevel ⟨size, bs⟩) 0).map (Node.subBs · bs)
+      = (postD (Tree.shifted ⟨size, bs⟩).2 (rootLevel ⟨size, bs⟩) 0).map (up bs) := by
+    apply List.map_congr_left
+    intro x hx
+    exact subBs_up_of_lt size bs hs hbs (mem_postD_lt _ _ _ _ hx)
+  unfold Tree.postOrderNodesIter
+  simp only
+  rw [postOrderNodes_shifted size bs hs, hmap,
+    persistedPost_eq_postD size bs (rootLevel ⟨size, bs⟩) hs (by omega),
+    subBs_eq_up (blocks_mul_le size bs hs hbs)]
+  have hFe : (Tree.shifted ⟨size, bs⟩).2 = Tree.blocks ⟨size, bs⟩ - 1 + 1 := by omega
+  rw [hFe] at hF ⊢
+  have hmemN : ∀ x ∈ postD (Tree.blocks ⟨size, bs⟩ - 1) (rootLevel ⟨size, bs⟩) 0,
+      x < Tree.blocks ⟨size, bs⟩ - 1 := fun x hx => mem_postD_lt _ _ _ _ hx
+  generalize hN : Tree.blocks ⟨size, bs⟩ - 1 = N at *
+  obtain ⟨A, B, hA, hB, hAs, hBs⟩ := postD_succ_in (N := N) (by omega) (rootLevel ⟨size, bs⟩) 0
+    (by simp [startOf]) (by simp only [endOf, Nat.zero_add, Nat.one_mul]; omega)
+  refine ⟨A.map (up bs), B.map (up bs), by rw [hA]; simp, by rw [hB]; simp, ?_, ?_⟩
+  · intro a ha
+    obtain ⟨x, hx, rfl⟩ := List.mem_map.mp ha
+    obtain ⟨k', L', rfl, h2⟩ := hAs x hx
+    have hxN := hmemN _ (by rw [hB]; exact List.mem_append_left _ hx)
+    rw [isStable_shift hs (by rw [hN]; exact hxN)]
+    omega
+  · intro b hb'
+    obtain ⟨x, hx, rfl⟩ := List.mem_map.mp hb'
+    obtain ⟨k', L', rfl, h2⟩ := hBs x hx
+    have hxN := hmemN _ (by rw [hB]; exact List.mem_append_right _ hx)
+    have hne : ¬ (isStable ⟨size, bs⟩ (up bs (nodeOf k' L')) = true) := by
+      rw [isStable_shift hs (by rw [hN]; exact hxN), endOf_eq]
+      rw [endOf_eq] at h2
+      omega
+    simpa using hne
+
+/-! ### offsets along the iterators -/
+
+theorem filterMap_filter_of_none {α β : Type} (f : α → Option β) (p : α → Bool) (l : List α)
+    (h : ∀ x ∈ l, p x = false → f x = none) : l.filterMap f = (l.filter p).filterMap f := by
+  induction l with
+  | nil => rfl
+  | cons a l ih =>
+    have ih' := ih (fun x hx => h x (List.mem_cons_of_mem _ hx))
+    cases hp : p a with
+    | true => simp only [List.filter_cons, hp, if_true, List.filterMap_cons, ih']
+    | false =>
+      have := h a (List.mem_cons_self) hp
+      simp [hp, this, ih']
+
+theorem filterMap_of_map_some {α β : Type} (f : α → Option β) (l : List α) (r : List β)
+    (h : l.map f = r.map some) : l.filterMap f = r := by
+  have : l.filterMap f = (l.map f).filterMap id := by rw [List.filterMap_map]; rfl
+  rw [this, h, List.filterMap_map]
+  simp
+
+/-- the pre-order iterator visits the persisted nodes in the order of their pre-order offsets
+`0, 1, …, blocks-2`, then the half leaf (which has no offset) -/
+theorem preIter_offsets (size bs : Nat) (hs : size ≤ 2 ^ 63) (hbs : bs ≤ 10) :
+    (Tree.preOrderNodesIter ⟨size, bs⟩).map (Tree.preOrderOffset ⟨size, bs⟩)
+      = (List.range' 0 (Tree.blocks ⟨size, bs⟩ - 1)).map some
+        ++ (halfLeaf ⟨size, bs⟩).map (fun _ => none) := by
+  obtain ⟨hlen, hmap⟩ := persistedPre_offsets size bs hs
+  rw [preIter_eq size bs hs hbs, List.map_append, hmap, hlen]
+  congr 1
+  unfold halfLeaf
+  simp only
+  split
+  · rename_i hb
+    simp [pre_half_leaf size bs hs hbs hb]
+  · rfl
+
+/-- the post-order iterator visits the persisted nodes in the order of their post-order offsets
+`0, 1, …, blocks-2` (the half leaf, which has no offset, is visited in between) -/
+theorem postIter_offsets (size bs : Nat) (hs : size ≤ 2 ^ 63) (hbs : bs ≤ 10) :
+    (Tree.postOrderNodesIter ⟨size, bs⟩).filterMap
+        (fun x => (Tree.postOrderOffset ⟨size, bs⟩ x).map Tree.PostOffset.value)
+      = List.range' 0 (Tree.blocks ⟨size, bs⟩ - 1) := by
+  obtain ⟨hlen, hmap⟩ := persistedPost_offsets size bs hs
+  rw [filterMap_filter_of_none _ (fun x => !(halfLeaf ⟨size, bs⟩).contains x),
+    postIter_filter size bs hs hbs, ← hlen]
+  · exact filterMap_of_map_some _ _ _ hmap
+  · intro x _ hx
+    unfold halfLeaf at hx
+    simp only at hx
+    split at hx
+    · rename_i hb
+      simp only [Bool.not_eq_false', List.contains_cons, List.contains_nil, Bool.or_false,
+        beq_iff_eq] at hx
+      rw [hx, post_half_leaf size bs hs hbs hb]
+      rfl
+    · simp at hx
 
 /-! ## part 4: the post-order chunk plan -/
 
@@ -1113,5 +1282,78 @@ theorem planD_eq_planRec (L k : Nat) :
     · rw [planD_succ_neg root h, ih]; simp only [planRec, if_neg h]
 
 end plan
+
+/-! ### the plan of a blob -/
+
+theorem postOrderChunks_eq (size bs : Nat) (hs : size ≤ 2 ^ 63) :
+    Tree.postOrderChunks ⟨size, bs⟩
+      = planD size bs (Tree.shifted ⟨size, bs⟩).1 (Tree.shifted ⟨size, bs⟩).2
+          (rootLevel ⟨size, bs⟩) 0 := by
+  unfold Tree.postOrderChunks planD
+  rw [postOrderNodes_shifted size bs hs]
+
+theorem leaves_plan (size bs : Nat) (hs : size ≤ 2 ^ 63) (hbs : bs ≤ 10) :
+    leavesOf (Tree.postOrderChunks ⟨size, bs⟩)
+      = (List.range (Tree.blocks ⟨size, bs⟩)).map (leafInfo size bs) := by
+  obtain ⟨_, _, _, hF⟩ := rootLevel_spec size bs hs
+  have g := shifted_geo size bs hs hbs
+  have hge := g.ge
+  have hs0 : startOf 0 (rootLevel ⟨size, bs⟩) = 0 := by simp [startOf]
+  have he0 : endOf 0 (rootLevel ⟨size, bs⟩) = 2 ^ (rootLevel ⟨size, bs⟩ + 1) := by simp [endOf]
+  rw [postOrderChunks_eq size bs hs, leaves_planD g, List.range_eq_range', hs0, he0]
+  congr 2
+  omega
+
+/-- each leaf ends where the next one starts; the last one ends at `size` -/
+theorem leaf_cover (size bs b : Nat) (hb : b < Tree.blocks ⟨size, bs⟩) :
+    (leafInfo size bs b).1 * 1024 + (leafInfo size bs b).2
+      = if b + 1 < Tree.blocks ⟨size, bs⟩ then (leafInfo size bs (b + 1)).1 * 1024 else size := by
+  have h1 := lt_blocks_iff size bs (b + 1) (by omega)
+  have h2 : b * 2 ^ (bs + 10) ≤ size := by
+    by_cases h0 : b = 0
+    · subst h0; omega
+    · have := (lt_blocks_iff size bs b (by omega)).mp hb; omega
+  rw [Nat.pow_add, ← Nat.mul_assoc, Nat.add_mul, Nat.one_mul] at h1
+  rw [Nat.pow_add, ← Nat.mul_assoc] at h2
+  have e10 : (2 : Nat) ^ 10 = 1024 := by decide
+  rw [e10] at h1 h2
+  simp only [leafInfo, Nat.add_mul, Nat.one_mul]
+  generalize b * 2 ^ bs = q at *
+  generalize 2 ^ bs = p at *
+  split <;> omega
+
+theorem parents_plan (size bs : Nat) (hs : size ≤ 2 ^ 63) (hbs : bs ≤ 10) :
+    parentsOf (Tree.postOrderChunks ⟨size, bs⟩) = persistedPost size bs := by
+  obtain ⟨_, _, _, hF⟩ := rootLevel_spec size bs hs
+  obtain ⟨hNF, _, _⟩ := shifted_props size bs
+  rw [postOrderChunks_eq size bs hs, parents_planD (shifted_geo size bs hs hbs),
+    persistedPost_eq_postD size bs (rootLevel ⟨size, bs⟩) hs (by omega)]
+
+theorem stack_plan (size bs : Nat) (hs : size ≤ 2 ^ 63) (hbs : bs ≤ 10) :
+    stackRun 0 (Tree.postOrderChunks ⟨size, bs⟩) = some 1 := by
+  obtain ⟨_, _, hlt, _⟩ := rootLevel_spec size bs hs
+  rw [postOrderChunks_eq size bs hs]
+  exact stack_planD (shifted_geo size bs hs hbs) _ _ 0 (by simp only [startOf, Nat.zero_mul]; omega) 0
+
+/-- no prefix of a plan that runs through underflows -/
+theorem stack_prefix {plan a b : List Chunk} {r : Nat} (h : stackRun 0 plan = some r)
+    (hab : plan = a ++ b) : ∃ s, stackRun 0 a = some s := by
+  rw [hab, stackRun_append] at h
+  cases hs : stackRun 0 a with
+  | some s => exact ⟨s, rfl⟩
+  | none => rw [hs] at h; simp at h
+
+theorem root_plan (size bs : Nat) (hs : size ≤ 2 ^ 63) (hbs : bs ≤ 10) :
+    ∃ init last, Tree.postOrderChunks ⟨size, bs⟩ = init ++ [last] ∧ rootFlag last = true ∧
+      ∀ c ∈ init, rootFlag c = false := by
+  obtain ⟨_, e, hlt, _⟩ := rootLevel_spec size bs hs
+  rw [postOrderChunks_eq size bs hs, e]
+  exact root_planD (shifted_geo size bs hs hbs) _ hlt
+
+theorem plan_rec (size bs : Nat) (hs : size ≤ 2 ^ 63) (hbs : bs ≤ 10) :
+    Tree.postOrderChunks ⟨size, bs⟩
+      = planRec size bs (Tree.shifted ⟨size, bs⟩).1 (Tree.shifted ⟨size, bs⟩).2
+          (rootLevel ⟨size, bs⟩) 0 := by
+  rw [postOrderChunks_eq size bs hs, planD_eq_planRec (shifted_geo size bs hs hbs)]
 
 end Bao.NodeIterL
